@@ -123,7 +123,7 @@ func DrawCell(t *rapid.T, name string) Cell {
 		set("fcFrac", u(t, 0, 1, "fcFrac"))
 		set("fimp", u(t, 0, 1, "fimp"))
 		set("rfac", u(t, 0, 1, "rfac"))
-		set("smax", u(t, 1, 500, "smax"))
+		set("smax", u(t, 10, 500, "smax")) // below 10 mm the ET term 10*S/smax is not bounded by the store itself
 		set("sq", u(t, 0, 10, "sq"))
 		set("thres", u(t, 0, 50, "thres"))
 	case "RunoffCoefficient":
